@@ -156,18 +156,65 @@ def eof_rules(ctx, rid):
     ok4 = bool(unx) and all(any(re.search(r"offset > 0$", a) for a in path_sig(p)[0]) for p in unx)
     ctx.check(rid, "GetBuffer ImmediateFin iff offset==0", ok3, "GetBuffer::poll ImmediateFin not guarded by offset == 0: %s" % [path_sig(p)[0] for p in imm], where(gb))
     ctx.check(rid, "GetBuffer UnexpectedFin iff offset>0", ok4, "GetBuffer::poll UnexpectedFin not guarded by offset > 0: %s" % [path_sig(p)[0] for p in unx], where(gb))
-    # the ImmediateFin->UnexpectedFin closures (non-first awaits) in Frame::read_async / StreamHeader::read_async
-    n = 0
+    # EOF of the source in Frame::read_async / StreamHeader::read_async: at the first read the error passes through unchanged
+    # (ImmediateFin = clean end); at every later read it goes through a map {ImmediateFin -> UnexpectedFin, other -> same}.
+    # The map is found on the error value itself (closure or fn item given to map_err), whatever it is called.
+    from pathwalk import strip_refs
+    from rulelib import canon
+    from rules.shared import _reader_seq
+
+    def remap_ok(F):
+        F = strip_refs(F)
+        if isinstance(F, tuple) and F[0] == "agg" and F[1] == "closure":
+            g, par = A.fn(F[2]), 2
+        elif isinstance(F, tuple) and F[0] == "fnref":
+            g, par = A.fn_opt(F[1]), 1
+        else:
+            return False, "not a closure / fn item"
+        if g is None or g.body is None:
+            return False, "body not found"
+        rows = set()
+        for p in nonpanic(walk(g)):
+            at = [a for a in p.atoms if a[0] in ("is", "isnot")]
+            subj_is_param = all(isinstance(strip_refs(a[1]), tuple) and strip_refs(a[1])[0] == "p" and strip_refs(a[1])[1] == par for a in at)
+            if not subj_is_param or len(at) != 1 or p.leaf[0] != "return":
+                return False, "unexpected shape %s" % (path_sig(p),)
+            a0 = at[0]
+            leaf = strip_refs(p.leaf[1])
+            if a0[0] == "is" and a0[2] == "ImmediateFin":
+                rows.add(("ImmediateFin", canon(leaf).split("::")[-1]))
+            elif (a0[0] == "isnot" and tuple(a0[2]) == ("ImmediateFin",)) or (a0[0] == "is" and a0[2] != "ImmediateFin"):
+                same = isinstance(leaf, tuple) and leaf[0] == "p" and leaf[1] == par
+                same = same or (a0[0] == "is" and canon(leaf).split("::")[-1] == a0[2])
+                rows.add(("other", "same" if same else canon(leaf)))
+            else:
+                return False, "unexpected arm %s" % (path_sig(p),)
+        good = ("ImmediateFin", "UnexpectedFin") in rows and all(r[1] == "same" for r in rows if r[0] == "other") and any(r[0] == "other" for r in rows)
+        return good, sorted(rows)
+
     for owner, want in (("wtransport_proto::frame::Frame::read_async::{closure#0}", 3), ("wtransport_proto::stream_header::StreamHeader::read_async::{closure#0}", 1)):
-        cls = [f for f in A.fn_list if f.path.startswith(owner + "::{closure#") and f.body]
-        maps = 0
-        for f in cls:
-            ps = nonpanic(walk(f))
-            sigs = {(tuple(a), l) for a, l in (path_sig(p) for p in ps)}
-            if any("ImmediateFin" in " ".join(a) for a, _ in sigs):
-                good = sigs == {(("e is ImmediateFin",), "return r#async::IoReadError::UnexpectedFin"), (("e isnot ImmediateFin",), "return e")}
-                ctx.check(rid, "%s|%s" % (owner.split("::")[-3], f.path.split("::")[-1]), good,
-                          "EOF remap closure is not {ImmediateFin->UnexpectedFin, other->same}: %s" % sorted(sigs), where(f))
-                maps += 1
-        ctx.floor(rid, "EOF remap closures of %s" % owner.split("::")[-3], maps, want)
-        n += maps
+        g = A.fn(owner)
+        first = later = 0
+        for p in nonpanic(walk(g)):
+            if p.leaf[0] != "return":
+                continue
+            v = strip_refs(p.leaf[1])
+            if not (isinstance(v, tuple) and v[0] == "agg" and v[1] == "adt" and v[3] == "Err" and v[5]):
+                continue
+            x = v[5][0]
+            io = canon(x)
+            if "err(await(" not in io:
+                continue    # a protocol error (unknown type, too big ...), not the source's EOF / IO error
+            k = len(_reader_seq(p))
+            site = "%s|read#%d" % (owner.split("::")[-3], k)
+            if k <= 1:
+                first += 1
+                ctx.check(rid, site + " EOF passes through", isinstance(x, tuple) and x[0] == "err",
+                          "%s::read_async maps the error of its FIRST read (%s): a clean end of stream is no longer reported as ImmediateFin" % (owner.split("::")[-3], io[:120]), where(g), key=site)
+            else:
+                later += 1
+                okm, detail = (False, "no map") if not (isinstance(x, tuple) and x[0] == "apply") else remap_ok(x[1])
+                ctx.check(rid, site + " EOF inside the frame -> UnexpectedFin (EOF remap)", okm,
+                          "%s::read_async: the error of read #%d is not passed through the EOF remap {ImmediateFin -> UnexpectedFin, other -> same}: %s" % (owner.split("::")[-3], k, detail), where(g), key=site)
+        ctx.floor(rid, "EOF paths of %s (first read)" % owner.split("::")[-3], first, 1)
+        ctx.floor(rid, "EOF paths of %s (later reads)" % owner.split("::")[-3], later, want)
